@@ -233,6 +233,25 @@ CLAIMED["C11"] = dict(
     technique="contract-based deductive verification with ghost logs and loop invariants (modular: Worklist contract from C12, assumed pattern contract), SMT-discharged; bounded runtime-contract stand-in under perturbed schedules",
 )
 
+CLAIMED["C09"] = dict(
+    category="proof",
+    text="Core acceptance semantics proved, the rest bounded. The real verify of EqAttrConstraint, AttrSetConstraint, BaseAttr, VarConstraint, "
+         "ParamAttrConstraint, AllOf and AnyOf is extracted from /repo and proved to realise the DEFINING clause of the statement in both "
+         "directions (normal return <=> clause holds, VerifyException <=> it does not, no other exception), with nested verify calls replaced by "
+         "the callee's contract (an uninterpreted acceptance relation over constraint, attribute and variable context, contexts threaded in order): "
+         "equality / set membership / class test; variables: first occurrence binds after the inner constraint accepts, later occurrences must be "
+         "equal (object truthiness is NOT assumed to mean `is not None`); parametrized: class, arity, parameter-wise in the threaded context; "
+         "intersection: all conjuncts; union: some alternative - the dispatch-table lemma under the AnyOf object invariant and bases-soundness. "
+         "ConstraintContext.get_variable/set_attr_variable are inlined. EqAttrConstraint/VarConstraint.infer return an accepted attribute; "
+         "get_bases soundness for EqAttrConstraint, BaseAttr, ParamAttrConstraint. Bounded stand-in for the remaining clauses: generated constraint "
+         "trees vs a reference evaluator, union simplification (AnyOf.get, |, &), inference on satisfiable constraints, type hints vs isa.",
+    note="Bounded only: AnyOf.__init__ (establishes the invariant assumed by AnyOf.verify), AnyOf.get / relax_constraint (simplification never "
+         "changes the accepted set), irdl_to_attr_constraint vs isa, infer of BaseAttr/ParamAttrConstraint/AllOf, AttrSetConstraint.get_bases. "
+         "Not covered: IntConstraint / RangeConstraint families. Attribute == is value equality (C08). pyvc + z3 trusted.",
+    design="§4 C09, §9",
+    technique="contract-based deductive verification: iff-contracts on normal and exceptional exits against the statement's defining clauses, modular callee relation, ghost context chain for loops; bounded differential stand-in",
+)
+
 NOT_APPLICABLE = {
     "C04": "whole Printer∘Parser composition over every dialect: recursive string programs; no per-function contract within reach of the SMT-backed generator expresses it",
     "C05": "about 80 dialects of hand-written print/parse pairs and a format-string interpreter; same obstacle as C04",
@@ -246,7 +265,7 @@ NOT_APPLICABLE = {
     "C28": "result preservation of an e-graph pipeline: whole-program statement with no per-function postcondition implying it",
 }
 
-NOT_REACHED = ["C06", "C09", "C18"]
+NOT_REACHED = ["C06", "C18"]
 
 
 def main():
